@@ -120,4 +120,135 @@ Proof.
   destruct (FutProofs.sync_reference_lands root) as [SD _]. split; [congruence|exact C].
 Qed.
 
+(** ** Mutations: the root fields one after the other ([ExecAsync.serial_loop]), each field's
+    future waited for by the joint loop before the next field starts; then the joint loop once more
+    on the (ready) result.  The idle rounds of all the waits are numbered consecutively. *)
+
+Lemma jloop_rounds cs f st s r st' sE :
+  JLoop cs f st s (r, st') sE -> E.s_round st' = E.s_round st + length cs.
+Proof.
+  intro J. remember (r, st') as rs eqn:ER. revert r st' ER.
+  induction J as [r0 st s|c st s mid s1 st1 c1 ro st2 tr s2 cs rs sE R NX ID IV RD R2 J IH]; intros r st' ER.
+  - inversion ER; subst. simpl. lia.
+  - rewrite (IH r st' ER), RD. unfold E.idle in ID. destruct (filter _ _); [discriminate|].
+    inversion ID; subst st1. simpl. lia.
+Qed.
+
+Lemma jloop_wait_loop_gen cs f st s rs sE :
+  JLoop cs f st s rs sE ->
+  forall pre post, length pre = E.s_round st ->
+  E.wait_loop E.fixed_flags (sched_of_rounds (pre ++ cs ++ post)) (length cs) f st = E.Done rs.
+Proof.
+  induction 1 as [r st s|c st s mid s1 st1 c1 ro st2 tr s2 cs rs sE R NX ID IV RD R2 J IH]; intros pre post LP.
+  - reflexivity.
+  - cbn [length]. rewrite AsyncRun.wait_loop_pending.
+    assert (N : nth (E.s_round st) (pre ++ (deliveries mid :: cs) ++ post) [] = deliveries mid)
+      by (rewrite <- LP; simpl; apply nth_middle).
+    rewrite (idle_const_sched _ _ _ _ ID N), IV.
+    replace (pre ++ (deliveries mid :: cs) ++ post) with ((pre ++ [deliveries mid]) ++ cs ++ post)
+      by (rewrite <- app_assoc; reflexivity).
+    apply IH. rewrite app_length. simpl. rewrite RD.
+    unfold E.idle in ID. destruct (filter _ _); [discriminate|]. inversion ID; subst st1. simpl. lia.
+Qed.
+
+(** [wait]: the future handed to the loop after the first poll, as in [JRun] *)
+Definition JWait (cs : list (list nat)) (f : E.fut) (st : E.st) (s : state) (rs : Plan.result * E.st) (sE : state) : Prop :=
+  exists f1 st1 tr s0,
+    (forall sigma fuel, E.wait E.fixed_flags sigma fuel f st = E.wait_loop E.fixed_flags sigma fuel f1 st1) /\
+    E.s_round st1 = E.s_round st /\
+    IdleModel.run fx p s tr = Some s0 /\
+    JLoop cs f1 st1 s0 rs sE.
+
+Lemma jwait_wait cs f st s r st' sE :
+  JWait cs f st s (r, st') sE ->
+  forall pre post k, length pre = E.s_round st ->
+  E.wait E.fixed_flags (sched_of_rounds (pre ++ cs ++ post)) (length cs + k) f st = E.Done (r, st') /\
+  E.s_round st' = E.s_round st + length cs.
+Proof.
+  intros (f1 & st1 & tr & s0 & W & R1 & _ & J) pre post k LP. split.
+  - rewrite W. apply wait_loop_mono. apply (jloop_wait_loop_gen _ _ _ _ _ _ J). now rewrite R1.
+  - rewrite (jloop_rounds _ _ _ _ _ _ _ J). now rewrite R1.
+Qed.
+
+Inductive JSerial : list (list nat) -> Plan.selset -> nat -> nat -> Plan.rpath -> E.st -> state ->
+                    option Plan.err * E.st -> state -> Prop :=
+| JS_nil m i q st s : JSerial [] [] m i q st s (None, st) s
+| JS_err key tag nn res tl m i q st s f s1 f1 s2 cs e s3 sE :
+    E.exec_field E.fixed_flags (Plan.FP tag nn res) (Plan.PKey key :: q) st = (f, s1) ->
+    E.catch_if_nullable nn f s1 = (f1, s2) -> E.s_round s2 = E.s_round st ->
+    JWait cs f1 s2 s (Plan.RErr e, s3) sE ->
+    JSerial cs ((key, Plan.FP tag nn res) :: tl) m i q st s (Some e, s3) sE
+| JS_ok key tag nn res tl m i q st s f s1 f1 s2 cs1 v s3 s' cs2 out sE :
+    E.exec_field E.fixed_flags (Plan.FP tag nn res) (Plan.PKey key :: q) st = (f, s1) ->
+    E.catch_if_nullable nn f s1 = (f1, s2) -> E.s_round s2 = E.s_round st ->
+    JWait cs1 f1 s2 s (Plan.ROk v, s3) s' ->
+    JSerial cs2 tl m (S i) q (E.heap_set m i key v s3) s' out sE ->
+    JSerial (cs1 ++ cs2) ((key, Plan.FP tag nn res) :: tl) m i q st s out sE.
+
+Lemma jserial_serial cs l m i q st s out sE :
+  JSerial cs l m i q st s out sE ->
+  forall pre post k, length pre = E.s_round st ->
+  E.serial_loop E.fixed_flags (sched_of_rounds (pre ++ cs ++ post)) (length cs + k) l m i q st = E.Done out /\
+  E.s_round (snd out) = E.s_round st + length cs.
+Proof.
+  induction 1 as [m i q st s
+                 |key tag nn res tl m i q st s f s1 f1 s2 cs e s3 sE EF CI RD JW
+                 |key tag nn res tl m i q st s f s1 f1 s2 cs1 v s3 s' cs2 out sE EF CI RD JW JS IH];
+    intros pre post k LP.
+  - split; [reflexivity|simpl; lia].
+  - cbn [E.serial_loop]. rewrite EF, CI.
+    destruct (jwait_wait _ _ _ _ _ _ _ JW pre post k) as [WE WR]; [now rewrite RD|].
+    rewrite WE. split; [reflexivity|]. simpl. rewrite WR, RD. reflexivity.
+  - cbn [E.serial_loop]. rewrite EF, CI.
+    destruct (jwait_wait _ _ _ _ _ _ _ JW pre (cs2 ++ post) (length cs2 + k)) as [WE WR]; [now rewrite RD|].
+    replace (pre ++ (cs1 ++ cs2) ++ post) with (pre ++ cs1 ++ cs2 ++ post) by (now rewrite <- app_assoc).
+    replace (length (cs1 ++ cs2) + k) with (length cs1 + (length cs2 + k)) by (rewrite app_length; lia).
+    rewrite WE.
+    destruct (IH (pre ++ cs1) post (length cs1 + k)) as [SE SR].
+    { rewrite app_length. simpl. rewrite WR, RD, LP. reflexivity. }
+    replace (pre ++ cs1 ++ cs2 ++ post) with ((pre ++ cs1) ++ cs2 ++ post) by (now rewrite <- app_assoc).
+    replace (length cs1 + (length cs2 + k)) with (length cs2 + (length cs1 + k)) by lia.
+    split; [exact SE|]. rewrite SR. simpl. rewrite WR, RD, app_length. lia.
+Qed.
+
+Definition JRunM (root : Plan.selset) (jfuel : nat) (cs : list (list nat)) (resp : E.resp) : Prop :=
+  let '(m, st1) := E.alloc_map (length root) E.st0 in
+  exists cs1 cs2 oe st2 sS f rs sE,
+    cs = cs1 ++ cs2 /\
+    JSerial cs1 root m 0 [] st1 init (oe, st2) sS /\
+    f = match oe with Some e => Future.Err e | None => Future.MapOkValue (Future.After nil) (Plan.GMap m) end /\
+    JWait cs2 f st2 sS rs sE /\
+    E.finish jfuel rs = E.Done resp.
+
+Lemma jrunm_is_run root jfuel cs resp k :
+  JRunM root jfuel cs resp ->
+  E.run E.fixed_flags (sched_of_rounds cs) E.Mutation (length cs + k) jfuel root = E.Done resp.
+Proof.
+  unfold JRunM, E.run, E.exec_sel_serial. destruct (E.alloc_map (length root) E.st0) as [m st1] eqn:AM.
+  intros (cs1 & cs2 & oe & st2 & sS & f & [r st3] & sE & -> & JS & -> & JW & F).
+  assert (R0 : E.s_round st1 = 0) by (unfold E.alloc_map in AM; inversion AM; reflexivity).
+  destruct (jserial_serial _ _ _ _ _ _ _ _ _ JS [] cs2 (length cs2 + k)) as [SE SR]; [now rewrite R0|].
+  simpl in SE, SR.
+  replace (length (cs1 ++ cs2) + k) with (length cs1 + (length cs2 + k)) by (rewrite app_length; lia).
+  rewrite SE.
+  destruct (jwait_wait _ _ _ _ _ _ _ JW cs1 [] (length cs1 + k)) as [WE _]; [rewrite SR, R0; reflexivity|].
+  rewrite app_nil_r in WE.
+  replace (length cs1 + (length cs2 + k)) with (length cs2 + (length cs1 + k)) by lia.
+  destruct oe as [e|]; rewrite WE; exact F.
+Qed.
+
+Theorem response_eq_sync_mutation root jfuel cs resp :
+  FutProofs.resp_depth root < jfuel ->
+  JRunM root jfuel cs resp ->
+  E.r_data resp = ExecSync.sr_data (ExecSync.run_sync root) /\
+  FutSpec.conforms root (E.r_data resp) (E.r_errors resp).
+Proof.
+  intros J R.
+  pose proof (jrunm_is_run root jfuel cs resp (Plan.count_async root) R) as RUN.
+  destruct (FutProofs.run_conforms E.Mutation (sched_of_rounds cs) (length cs + Plan.count_async root) jfuel root
+              (sched_of_rounds_fair cs)) as [r [E1 [C [D _]]]]; [lia|exact J|].
+  rewrite RUN in E1. inversion E1; subst r.
+  destruct (FutProofs.sync_reference_lands root) as [SD _]. split; [congruence|exact C].
+Qed.
+
 End JointRun.
